@@ -110,76 +110,200 @@ func newlineTests(c *Ctx, rule string, fns []string) {
 		}
 		info := fi.Pkg.TypesInfo
 		found := 0
-		ast.Inspect(fi.Decl.Body, func(n ast.Node) bool {
-			rs, ok := n.(*ast.RangeStmt)
-			if !ok {
-				return true
-			}
-			call, ok := unparen(rs.X).(*ast.CallExpr)
-			if !ok {
-				return true
-			}
-			fn := calleeOf(info, call)
-			if fn == nil || repoName(fn) != "vaxis.Characters" {
-				return true
-			}
-			valID, _ := rs.Value.(*ast.Ident)
-			if valID == nil {
-				return true
-			}
-			charObj := info.ObjectOf(valID)
-			// first statement of the loop body that is an if testing the cluster text
-			for _, st := range rs.Body.List {
-				ifs, ok := st.(*ast.IfStmt)
+		var visitBody func(body *ast.BlockStmt, level int)
+		visitBody = func(body *ast.BlockStmt, level int) {
+			ast.Inspect(body, func(n ast.Node) bool {
+				rs, ok := n.(*ast.RangeStmt)
 				if !ok {
-					continue
+					return true
 				}
-				mentions := containsNode(ifs.Cond, func(m ast.Node) bool {
-					s, ok := m.(*ast.SelectorExpr)
-					if !ok || s.Sel.Name != "Grapheme" {
+				call, ok := unparen(rs.X).(*ast.CallExpr)
+				if !ok {
+					return true
+				}
+				fn := calleeOf(info, call)
+				if fn == nil || repoName(fn) != "vaxis.Characters" {
+					return true
+				}
+				valID, _ := rs.Value.(*ast.Ident)
+				if valID == nil {
+					return true
+				}
+				charObj := info.ObjectOf(valID)
+				// mentions: the expression reads the text of the cluster (carrier.Grapheme, or the carrier itself when the
+				// text was passed on as a string)
+				mentionsIn := func(e ast.Node, carrier types.Object, isText bool) bool {
+					return containsNode(e, func(m ast.Node) bool {
+						if isText {
+							id, ok := m.(*ast.Ident)
+							return ok && info.ObjectOf(id) == carrier
+						}
+						s, ok := m.(*ast.SelectorExpr)
+						if !ok || s.Sel.Name != "Grapheme" {
+							return false
+						}
+						id, ok := s.X.(*ast.Ident)
+						return ok && info.ObjectOf(id) == carrier
+					})
+				}
+				// scan: the first statement of the body that is an if testing the cluster text for a newline; when the
+				// body has none, the same search in the helpers of the package that are handed the cluster
+				var scan func(body *ast.BlockStmt, carrier types.Object, isText bool, depth int) bool
+				scan = func(body *ast.BlockStmt, carrier types.Object, isText bool, depth int) bool {
+					// the candidate tests: conditions of if statements, case expressions of a tagless switch and
+					// (other than for C11.i, which has a recogniser of its own for this) a flag variable
+					// assigned the test
+					type cand struct {
+						cond ast.Expr
+						pos  token.Pos
+					}
+					var cands []cand
+					for _, st := range c19FlatStmts(body.List) {
+						switch t := st.(type) {
+						case *ast.IfStmt:
+							cands = append(cands, cand{t.Cond, t.Pos()})
+						case *ast.SwitchStmt:
+							if t.Tag == nil && rule != "C11.i" {
+								for _, cl := range t.Body.List {
+									if cc, ok := cl.(*ast.CaseClause); ok {
+										for _, e := range cc.List {
+											cands = append(cands, cand{e, cc.Pos()})
+										}
+									}
+								}
+							}
+						case *ast.AssignStmt:
+							if len(t.Lhs) == 1 && len(t.Rhs) == 1 && rule != "C11.i" && (t.Tok == token.DEFINE || t.Tok == token.ASSIGN) && c19IsBoolType(info.TypeOf(t.Rhs[0])) {
+								cands = append(cands, cand{t.Rhs[0], t.Pos()})
+							}
+						}
+					}
+					for _, cd := range cands {
+						ifs := struct {
+							Cond ast.Expr
+							pos  token.Pos
+						}{unparen(cd.cond), cd.pos}
+						for {
+							if u, ok := ifs.Cond.(*ast.UnaryExpr); ok && u.Op == token.NOT {
+								ifs.Cond = unparen(u.X)
+								continue
+							}
+							break
+						}
+						if !mentionsIn(ifs.Cond, carrier, isText) {
+							continue
+						}
+						// does the condition look for a newline at all?
+						aboutNL := containsNode(ifs.Cond, func(m ast.Node) bool {
+							if bl, ok := m.(*ast.BasicLit); ok {
+								if s, isStr := constString(info, bl); isStr && strings.Contains(s, "\n") {
+									return true
+								}
+								if v, isInt := constInt(info, bl); isInt && v == '\n' && bl.Kind == token.CHAR {
+									return true
+								}
+							}
+							if cl, ok := m.(*ast.CallExpr); ok {
+								if f := calleeOf(info, cl); f != nil && strings.Contains(f.Name(), "LineBreak") {
+									return true
+								}
+							}
+							return false
+						})
+						if !aboutNL {
+							continue
+						}
+						found++
+						verdict, why := classifyNewlineTest(info, ifs.Cond)
+						key := name + "/line break recognised by containment of a newline in the cluster"
+						switch verdict {
+						case "ok":
+							c.ok(rule, key, ifs.pos, "%s", why)
+						case "bad":
+							c.bad(rule, key, ifs.pos, "%s: CR LF is a single grapheme cluster (\"\\r\\n\"), so a text with CRLF line terminators is laid out without line breaks", why)
+						default:
+							c.undecided(rule, key, ifs.pos, "unrecognised form of the newline test: %s", types.ExprString(ifs.Cond))
+						}
+						return true
+					}
+					if depth >= 2 || rule == "C11.i" {
 						return false
 					}
-					id, ok := s.X.(*ast.Ident)
-					return ok && info.ObjectOf(id) == charObj
-				})
-				if !mentions {
-					continue
-				}
-				// does the condition look for a newline at all?
-				aboutNL := containsNode(ifs.Cond, func(m ast.Node) bool {
-					if bl, ok := m.(*ast.BasicLit); ok {
-						if s, isStr := constString(info, bl); isStr && strings.Contains(s, "\n") {
-							return true
+					// the per-cluster work was moved into a helper: follow the cluster into it
+					done := false
+					for _, st := range body.List {
+						if done {
+							break
 						}
-						if v, isInt := constInt(info, bl); isInt && v == '\n' && bl.Kind == token.CHAR {
-							return true
-						}
+						ast.Inspect(st, func(m ast.Node) bool {
+							if done {
+								return false
+							}
+							if _, isLit := m.(*ast.FuncLit); isLit {
+								return false
+							}
+							call, ok := m.(*ast.CallExpr)
+							if !ok {
+								return true
+							}
+							fn := calleeOf(info, call)
+							if fn == nil || fn.Pkg() != fi.Pkg.Types {
+								return true
+							}
+							cfi := c.P.FuncOfObj(fn)
+							if cfi == nil || cfi.Decl.Body == nil || cfi == fi {
+								return true
+							}
+							sig, _ := fn.Type().(*types.Signature)
+							if sig == nil || sig.Variadic() || sig.Params().Len() != len(call.Args) {
+								return true
+							}
+							for k, a := range call.Args {
+								a = unparen(a)
+								po := types.Object(sig.Params().At(k))
+								switch {
+								case isIdentOf(info, a, carrier):
+									if scan(cfi.Decl.Body, po, isText, depth+1) {
+										done = true
+									}
+								case !isText && mentionsIn(a, carrier, false) && isSelectorExpr(a):
+									if scan(cfi.Decl.Body, po, true, depth+1) {
+										done = true
+									}
+								}
+								if done {
+									break
+								}
+							}
+							return !done
+						})
 					}
-					if cl, ok := m.(*ast.CallExpr); ok {
-						if f := calleeOf(info, cl); f != nil && strings.Contains(f.Name(), "LineBreak") {
-							return true
-						}
-					}
-					return false
-				})
-				if !aboutNL {
-					continue
+					return done
 				}
-				found++
-				verdict, why := classifyNewlineTest(info, ifs.Cond)
-				key := name + "/line break recognised by containment of a newline in the cluster"
-				switch verdict {
-				case "ok":
-					c.ok(rule, key, ifs.Pos(), "%s", why)
-				case "bad":
-					c.bad(rule, key, ifs.Pos(), "%s: CR LF is a single grapheme cluster (\"\\r\\n\"), so a text with CRLF line terminators is laid out without line breaks", why)
-				default:
-					c.undecided(rule, key, ifs.Pos(), "unrecognised form of the newline test: %s", types.ExprString(ifs.Cond))
-				}
-				break
+				scan(rs.Body, charObj, false, 0)
+				return true
+			})
+			if found > 0 || level >= 2 || rule == "C11.i" {
+				return
 			}
-			return true
-		})
+			// the loop over the clusters was moved into a helper of the package
+			seen := map[*FuncInfo]bool{}
+			ast.Inspect(body, func(n ast.Node) bool {
+				if _, isLit := n.(*ast.FuncLit); isLit {
+					return false
+				}
+				if call, ok := n.(*ast.CallExpr); ok && found == 0 {
+					if fn := calleeOf(info, call); fn != nil && fn.Pkg() == fi.Pkg.Types {
+						if cfi := c.P.FuncOfObj(fn); cfi != nil && cfi.Decl.Body != nil && cfi != fi && !seen[cfi] {
+							seen[cfi] = true
+							visitBody(cfi.Decl.Body, level+1)
+						}
+					}
+				}
+				return true
+			})
+		}
+		visitBody(fi.Decl.Body, 0)
 		if found == 0 && rule == "C11.i" {
 			// other shapes of the same test (a flag variable, an index loop over the clusters ...): c11text.go
 			found = c11NewlineTestAnyShape(c, rule, name, fi)
@@ -233,4 +357,39 @@ func classifyNewlineTest(info *types.Info, cond ast.Expr) (string, string) {
 		}
 	}
 	return "?", ""
+}
+
+func isIdentOf(info *types.Info, e ast.Expr, o types.Object) bool {
+	id, ok := e.(*ast.Ident)
+	return ok && o != nil && info.ObjectOf(id) == o
+}
+
+func isSelectorExpr(e ast.Expr) bool {
+	_, ok := e.(*ast.SelectorExpr)
+	return ok
+}
+
+// c19FlatStmts: the statements of a list with plain blocks, labels and "switch { default: ... }" wrappers (the
+// form in which the global helper inliner splices a helper with several returns) opened up.
+func c19FlatStmts(list []ast.Stmt) []ast.Stmt {
+	var out []ast.Stmt
+	for _, st := range list {
+		switch t := st.(type) {
+		case *ast.LabeledStmt:
+			out = append(out, c19FlatStmts([]ast.Stmt{t.Stmt})...)
+		case *ast.BlockStmt:
+			out = append(out, c19FlatStmts(t.List)...)
+		case *ast.SwitchStmt:
+			if t.Tag == nil && t.Init == nil && len(t.Body.List) == 1 {
+				if cc, ok := t.Body.List[0].(*ast.CaseClause); ok && cc.List == nil {
+					out = append(out, c19FlatStmts(cc.Body)...)
+					continue
+				}
+			}
+			out = append(out, st)
+		default:
+			out = append(out, st)
+		}
+	}
+	return out
 }
